@@ -27,6 +27,7 @@ type Config struct {
 	pgcounterprefix map[pgkey]bool
 	pgstack         map[pgkey]bool
 	rate            map[pgkey]float64
+	stackrate       map[pgkey]float64
 }
 
 type pgkey struct {
@@ -56,6 +57,7 @@ func NewConfig(cfg *telemetry.UploadConfig) *Config {
 	ucfg.pgcounterprefix = make(map[pgkey]bool, len(ucfg.Programs))
 	ucfg.pgstack = make(map[pgkey]bool, len(ucfg.Programs))
 	ucfg.rate = make(map[pgkey]float64)
+	ucfg.stackrate = make(map[pgkey]float64)
 	for _, p := range ucfg.Programs {
 		ucfg.program[p.Name] = true
 		for _, v := range p.Versions {
@@ -73,7 +75,12 @@ func NewConfig(cfg *telemetry.UploadConfig) *Config {
 		}
 		for _, s := range p.Stacks {
 			ucfg.pgstack[pgkey{p.Name, s.Name}] = true
-			ucfg.rate[pgkey{p.Name, s.Name}] = s.Rate
+			ucfg.stackrate[pgkey{p.Name, s.Name}] = s.Rate
+			if _, isCounter := ucfg.pgcounter[pgkey{p.Name, s.Name}]; !isCounter {
+				// Rate also answers for stacks, for existing callers; a counter
+				// of the same name keeps its own rate.
+				ucfg.rate[pgkey{p.Name, s.Name}] = s.Rate
+			}
 		}
 	}
 	return &ucfg
@@ -113,6 +120,13 @@ func (r *Config) HasStack(program, stack string) bool {
 
 func (r *Config) Rate(program, name string) float64 {
 	return r.rate[pgkey{program, name}]
+}
+
+// StackRate returns the rate of the stack counter config with the given name.
+// Counters and stacks are separate lists of a program config: a stack and a
+// counter may share a name and still have different rates.
+func (r *Config) StackRate(program, name string) float64 {
+	return r.stackrate[pgkey{program, name}]
 }
 
 func set(slice []string) map[string]bool {
